@@ -124,6 +124,14 @@ class AbsenceModel:
             self._src[key] = src(sp.call_def(fn, args, kw, {}))
         return self._src[key]
 
+    def residual_unique(self, syscond):
+        key = ("unique", tuple(syscond))
+        if key not in self._src:
+            from xfabsa.intflow import Specialiser, Dyn, src
+            sp = Specialiser(self.mod)
+            self._src[key] = src(sp.specialise("sysabs_unique", [[Dyn("h"), Dyn("k"), Dyn("l")], list(syscond)]))
+        return self._src[key]
+
     def slots_read(self, nslots=26):
         """condition slots whose value the decision depends on (for some crystal system)"""
         out = set()
